@@ -194,6 +194,7 @@ def run_case(case, workdir):
     hpath = os.path.join(workdir, "hdronly")
     os.makedirs(hpath)
     shutil.copy(os.path.join(path, "Header"), os.path.join(hpath, "Header"))
+    first_keys = None
     for limit in [None] + list(range(nlev + 1)):
         for header_only in (False, True):
             for maxmins in (False, True):
@@ -210,6 +211,11 @@ def run_case(case, workdir):
                 if st == "exc":
                     rec.fail("open_raised", sub, exc_text(val))
                     continue
+                keys = list(val.fields.keys())
+                if first_keys is None:
+                    first_keys = keys
+                elif keys != first_keys:
+                    rec.fail("fields_differ_between_openings", sub, "this opening exposes %r, an earlier opening of the same plotfile %r" % (keys, first_keys))
                 try:
                     check_open(rec, sub, val, ref, desc, p, limit, header_only, maxmins, parsed)
                 except Exception as e:
